@@ -6,6 +6,21 @@ import sys
 import traceback
 
 
+def fresh_package():
+    """every case starts from freshly executed package modules, so that module-level state written by one
+    case (e.g. a memo introduced by a change under test) cannot leak into the next case of the batch"""
+    import conda_content_trust
+    for name in ('common', 'signing', 'authentication', 'root_signing', 'metadata_construction', 'cli'):
+        m = sys.modules.get('conda_content_trust.' + name)
+        try:
+            if m is not None:
+                importlib.reload(m)
+            else:
+                importlib.import_module('conda_content_trust.' + name)
+        except Exception:
+            pass
+
+
 def main():
     modname, inp, out = sys.argv[1:4]
     module = importlib.import_module(modname)
@@ -13,6 +28,7 @@ def main():
         cases = json.load(f)
     obs = []
     for c in cases:
+        fresh_package()
         try:
             obs.append(module.concrete(c))
         except Exception:
